@@ -145,124 +145,124 @@ func scanGuard(c *core.Ctx) []ob {
 			})
 		}
 		for bi, fd := range bodies {
-		if found {
-			break
-		}
-		sub := substs[bi]
-		ast.Inspect(fd.Body, func(nd ast.Node) bool {
-			is, ok := nd.(*ast.IfStmt)
-			if !ok || found {
-				return true
+			if found {
+				break
 			}
-			// the error may be produced by the then-branch, or (for `!= nil {..} else {return err}`) by the else branch
-			leaves := leavesWithError(is.Body)
-			if eb, ok := is.Else.(*ast.BlockStmt); ok && leavesWithError(eb) {
-				leaves = true
-			}
-			if !leaves {
-				return true
-			}
-			cond := exprString(is.Cond)
-			if is.Init != nil {
-				if as, ok := is.Init.(*ast.AssignStmt); ok {
-					for _, r := range as.Rhs {
-						cond += " ; " + exprString(r)
-					}
-				}
-			}
-			// locals of the condition are read through their (single) definition: totDegree := op0.Degree() + op1.Degree()
-			ast.Inspect(is.Cond, func(x ast.Node) bool {
-				id, ok := x.(*ast.Ident)
-				if !ok {
+			sub := substs[bi]
+			ast.Inspect(fd.Body, func(nd ast.Node) bool {
+				is, ok := nd.(*ast.IfStmt)
+				if !ok || found {
 					return true
 				}
-				var defs []string
-				ast.Inspect(fd.Body, func(y ast.Node) bool {
-					as, ok := y.(*ast.AssignStmt)
-					if !ok || len(as.Lhs) != len(as.Rhs) {
+				// the error may be produced by the then-branch, or (for `!= nil {..} else {return err}`) by the else branch
+				leaves := leavesWithError(is.Body)
+				if eb, ok := is.Else.(*ast.BlockStmt); ok && leavesWithError(eb) {
+					leaves = true
+				}
+				if !leaves {
+					return true
+				}
+				cond := exprString(is.Cond)
+				if is.Init != nil {
+					if as, ok := is.Init.(*ast.AssignStmt); ok {
+						for _, r := range as.Rhs {
+							cond += " ; " + exprString(r)
+						}
+					}
+				}
+				// locals of the condition are read through their (single) definition: totDegree := op0.Degree() + op1.Degree()
+				ast.Inspect(is.Cond, func(x ast.Node) bool {
+					id, ok := x.(*ast.Ident)
+					if !ok {
 						return true
 					}
-					for i, l := range as.Lhs {
-						if lid, ok := l.(*ast.Ident); ok && lid.Name == id.Name && as.Pos() < is.Pos() {
-							defs = append(defs, exprString(as.Rhs[i]))
+					var defs []string
+					ast.Inspect(fd.Body, func(y ast.Node) bool {
+						as, ok := y.(*ast.AssignStmt)
+						if !ok || len(as.Lhs) != len(as.Rhs) {
+							return true
 						}
+						for i, l := range as.Lhs {
+							if lid, ok := l.(*ast.Ident); ok && lid.Name == id.Name && as.Pos() < is.Pos() {
+								defs = append(defs, exprString(as.Rhs[i]))
+							}
+						}
+						return true
+					})
+					if len(defs) == 1 {
+						cond += " ; " + id.Name + " = " + defs[0]
 					}
 					return true
 				})
-				if len(defs) == 1 {
-					cond += " ; " + id.Name + " = " + defs[0]
+				// the same through chains of such locals (totDegree := degree0 + degree1; degree0, degree1 := op0.Degree(), …):
+				// the condition with every single-definition local replaced by its definition
+				cond += " ; " + expandLocals(fd, is, is.Cond, 0)
+				if len(sub) > 0 {
+					// in a helper: the condition once more with the helper's parameters replaced by the caller's arguments
+					sc := cond
+					for pn, at := range sub {
+						sc = regexp.MustCompile(`\b`+regexp.QuoteMeta(pn)+`\b`).ReplaceAllString(sc, strings.ReplaceAll(at, "$", "$$"))
+					}
+					cond += " ; " + sc
 				}
-				return true
-			})
-			// the same through chains of such locals (totDegree := degree0 + degree1; degree0, degree1 := op0.Degree(), …):
-			// the condition with every single-definition local replaced by its definition
-			cond += " ; " + expandLocals(fd, is, is.Cond, 0)
-			if len(sub) > 0 {
-				// in a helper: the condition once more with the helper's parameters replaced by the caller's arguments
-				sc := cond
-				for pn, at := range sub {
-					sc = regexp.MustCompile(`\b`+regexp.QuoteMeta(pn)+`\b`).ReplaceAllString(sc, strings.ReplaceAll(at, "$", "$$"))
-				}
-				cond += " ; " + sc
-			}
-			for _, t := range g.tokens {
-				any := false
-				if strings.HasPrefix(t, "re:") {
-					if re, err := regexp.Compile(t[3:]); err == nil {
-						if m := re.FindStringSubmatch(cond); m != nil && (len(m) < 3 || m[1] == m[2]) {
-							any = true
+				for _, t := range g.tokens {
+					any := false
+					if strings.HasPrefix(t, "re:") {
+						if re, err := regexp.Compile(t[3:]); err == nil {
+							if m := re.FindStringSubmatch(cond); m != nil && (len(m) < 3 || m[1] == m[2]) {
+								any = true
+							}
+						}
+					} else {
+						for _, alt := range strings.Split(t, "|") {
+							if strings.Contains(cond, alt) {
+								any = true
+							}
 						}
 					}
-				} else {
-					for _, alt := range strings.Split(t, "|") {
-						if strings.Contains(cond, alt) {
-							any = true
-						}
+					if !any {
+						return true
 					}
 				}
-				if !any {
-					return true
-				}
-			}
-			if len(g.ops) > 0 {
-				opOK := false
-				ast.Inspect(is.Cond, func(x ast.Node) bool {
-					switch v := x.(type) {
-					case *ast.BinaryExpr:
-						for _, o := range g.ops {
-							ordering := o == token.LSS || o == token.GTR || o == token.LEQ || o == token.GEQ
-							if !ordering || len(g.tokens) != 2 {
+				if len(g.ops) > 0 {
+					opOK := false
+					ast.Inspect(is.Cond, func(x ast.Node) bool {
+						switch v := x.(type) {
+						case *ast.BinaryExpr:
+							for _, o := range g.ops {
+								ordering := o == token.LSS || o == token.GTR || o == token.LEQ || o == token.GEQ
+								if !ordering || len(g.tokens) != 2 {
+									if v.Op == o {
+										opOK = true
+									}
+									continue
+								}
+								// ordering comparisons: the sides matter, and the mirrored spelling (b > a for a < b) is the same test
+								lx, ly := exprString(v.X), exprString(v.Y)
+								mirror := map[token.Token]token.Token{token.LSS: token.GTR, token.GTR: token.LSS, token.LEQ: token.GEQ, token.GEQ: token.LEQ}
+								if v.Op == o && strings.Contains(lx, g.tokens[0]) && strings.Contains(ly, g.tokens[1]) {
+									opOK = true
+								}
+								if v.Op == mirror[o] && strings.Contains(lx, g.tokens[1]) && strings.Contains(ly, g.tokens[0]) {
+									opOK = true
+								}
+							}
+						case *ast.UnaryExpr:
+							for _, o := range g.ops {
 								if v.Op == o {
 									opOK = true
 								}
-								continue
-							}
-							// ordering comparisons: the sides matter, and the mirrored spelling (b > a for a < b) is the same test
-							lx, ly := exprString(v.X), exprString(v.Y)
-							mirror := map[token.Token]token.Token{token.LSS: token.GTR, token.GTR: token.LSS, token.LEQ: token.GEQ, token.GEQ: token.LEQ}
-							if v.Op == o && strings.Contains(lx, g.tokens[0]) && strings.Contains(ly, g.tokens[1]) {
-								opOK = true
-							}
-							if v.Op == mirror[o] && strings.Contains(lx, g.tokens[1]) && strings.Contains(ly, g.tokens[0]) {
-								opOK = true
 							}
 						}
-					case *ast.UnaryExpr:
-						for _, o := range g.ops {
-							if v.Op == o {
-								opOK = true
-							}
-						}
+						return true
+					})
+					if !opOK {
+						return true
 					}
-					return true
-				})
-				if !opOK {
-					return true
 				}
-			}
-			found = true
-			return false
-		})
+				found = true
+				return false
+			})
 		}
 		pos := c.Rel(fd.Pos())
 		if found {
